@@ -6,6 +6,7 @@ mod core;
 mod uni;
 mod h;
 mod fref;
+mod explore;
 mod c01;
 mod c02;
 mod c03;
